@@ -38,6 +38,66 @@ def header_ok(val):
     return (a == 0x81 and x == 0 and y < 8) or (a == 0xc4 and x == 1 and y < 8)
 
 
+class Disk:
+    """What must be on disk, judged from the recorded history alone (never from the model):
+    * a write of k is known COMPLETED once its completion notification has been seen on the channel
+      (the write task sends it after fs::write returned) or the store has been run to quiescence;
+    * a removal of k (explicit, eviction, clean-up, failed write) is known COMPLETED once the store
+      has been observed with no background task left after it was issued."""
+
+    def __init__(self, nk):
+        self.seq = 0
+        self.writes = {k: [] for k in range(nk)}        # stored puts: {"v", "seq", "done"}
+        self.removed_at = {k: None for k in range(nk)}  # seq of the last removal event
+        self.quiet_at = -1                              # seq of the last step observed with no task alive
+
+    def step(self, op, out, pre, post, evicted):
+        self.seq += 1
+        name = op["op"]
+        if name in ("put", "put_local") and not (name == "put_local" and out["put_local"] == 2):
+            ok = out["put"] if name == "put" else out["put_local"] == 0
+            early = [op["k"], op["v"]] in pre["cache"]
+            if ok and not early:
+                self.writes[op["k"]].append({"v": op["v"], "seq": self.seq, "done": False})
+        for k in evicted:
+            self.removed_at[k] = self.seq
+        # completion notifications that appeared on the channel during this step
+        if name == "step" and len(post["chan"]) == len(pre["chan"]) + 1:
+            code, k = post["chan"][-1]
+            if code != NF and k in self.writes:
+                for w in self.writes[k]:
+                    if not w["done"]:
+                        w["done"] = True
+                        break
+        if name == "settle":
+            for ws in self.writes.values():
+                for w in ws:
+                    w["done"] = True
+        if post["ntasks"] == 0:
+            self.quiet_at = self.seq
+
+    def expect(self, k, names):
+        """('value', v) / ('absent',) / None (no claim) for key k at a crash"""
+        ws = self.writes[k]
+        r = self.removed_at[k]
+        last = ws[-1] if ws else None
+        unwritable = len(names[k]) > 255 or len(names[k]) == 0
+        if last is not None and (r is None or r < last["seq"]):
+            if last["done"] and not unwritable:
+                return ("value", last["v"])
+            return None
+        if r is not None and self.quiet_at >= r:
+            return ("absent",)
+        return None
+
+    def after_restart(self, post, nk):
+        self.seq += 1
+        for k in range(nk):
+            g = post["gets"][k]
+            self.writes[k] = [{"v": g, "seq": self.seq, "done": True}] if g < NF else []
+            self.removed_at[k] = None
+
+
 def oracle(c, o):
     """C02 stated on what the real store did across each crash + re-open."""
     if o is None:
@@ -48,8 +108,19 @@ def oracle(c, o):
         return []
     v = []
     t = Trace(c, o)
-    lens = o["val_lens"]
+    disk = Disk(t.nk)
     for i, op, out, pre, post in t.steps():
+        pre_idx = {a for a, _ in pre["idx"]}
+        post_idx = {a for a, _ in post["idx"]}
+        evicted = set()
+        if op["op"] in ("put", "put_local", "cleanup"):
+            evicted = pre_idx - post_idx
+        elif op["op"] == "remove":
+            evicted = {op["k"]}
+        elif op["op"] == "deliver" and op["j"] < len(pre["chan"]) and pre["chan"][op["j"]][0] == NF:
+            evicted = {pre["chan"][op["j"]][1]}
+        if op["op"] != "crash":
+            disk.step(op, out, pre, post, evicted)
         # whatever happens, a read returns nothing or a value handed in for that key
         for k, g in enumerate(post["gets"]):
             if g != NF and g not in t.hist[k]:
@@ -58,11 +129,23 @@ def oracle(c, o):
         if op["op"] != "crash":
             continue
         torn = {kk for kk, _ in op.get("tears", [])}
-        listed = {a for a, _ in post["idx"]}
+        listed = post_idx
         pre_files = {f[0]: (f[1], f[2]) for f in pre["files"]}
         for k in range(t.nk):
-            if k in torn:
+            if k in torn or k >= NF:
                 continue
+            # (1) from the history alone
+            e = disk.expect(k, o["names"])
+            if e is not None and e[0] == "value" and header_ok(c["vals"][e[1]]):
+                if post["gets"][k] != e[1] or k not in listed:
+                    v.append(("restart-lost-completed-write", "step %d: the last write of key %d (value %d) had completed before the "
+                              "crash and the key was not removed afterwards; after the restart get returns %s, listed: %s"
+                              % (i, k, e[1], post["gets"][k], k in listed)))
+            if e is not None and e[0] == "absent":
+                if post["gets"][k] != NF or k in listed:
+                    v.append(("removed-resurrected", "step %d: key %d was removed and every background task had run before the "
+                              "crash; after the restart get returns %s, listed: %s" % (i, k, post["gets"][k], k in listed)))
+            # (2) from the directory as it was at the crash
             if k in pre_files:
                 val, ln = pre_files[k]
                 if val != NF and header_ok(c["vals"][val]):
@@ -72,7 +155,7 @@ def oracle(c, o):
                                   % (i, k, val, post["gets"][k], k in listed)))
             else:
                 if post["gets"][k] != NF or k in listed:
-                    v.append(("restart-resurrected-removed-record", "step %d: key %d had no file at the crash; after the "
+                    v.append(("removed-resurrected", "step %d: key %d had no file at the crash; after the "
                               "restart get returns %s, listed: %s" % (i, k, post["gets"][k], k in listed)))
         # a file that survives the re-open must decrypt (torn files are dropped)
         for f in post["files"]:
@@ -80,6 +163,7 @@ def oracle(c, o):
                 v.append(("undecryptable-file-kept", "step %d: after the restart the file of key %d is kept although it does not decrypt" % (i, f[0])))
         if not o["encrypt"]:
             v.append(("built-without-encryption", "the harness was built without encrypt-records"))
+        disk.after_restart(post, t.nk)
     return dedupe(v)
 
 
@@ -93,6 +177,37 @@ def gen(ctx):
                                       caps=(1, 2, 3, 8, 16384, 16384),
                                       weights=dict(put=34, put_local=8, remove=10, get=2, step=34, deliver=10,
                                                    settle=3, crash=9, pay=2, quote=1), tag="crash-mix"))
+    # overwrites with shorter and longer values, completed, then crash / restart (and reads after the
+    # 1-2 entry cache has been churned, without restart)
+    for i in range(40 if quick else 600):
+        keys = gen_keys(rng, rng.randrange(2, 5), False)
+        lens = rng.sample([0, 1, 2, 7, 16, 17, 40, 90], 3)
+        vals = [bytes([0x91, rng.choice([1, 5, 2, 3])]) + bytes(rng.getrandbits(8) for _ in range(n)) + b"\x00" for n in lens]
+        ops = []
+        order = [rng.randrange(3) for _ in range(rng.randrange(2, 6))]
+        for j, vi in enumerate(order):
+            ops.append({"op": "put", "k": 0, "v": vi, "t": base.type_for(rng, vals[vi], False)})
+            ops += rng.choice([[{"op": "settle"}], [{"op": "step"}] * rng.randrange(0, 5), []])
+            if rng.random() < 0.4:
+                ops += [{"op": "put", "k": rng.randrange(1, len(keys)), "v": rng.randrange(3), "t": 2}, {"op": "settle"}, {"op": "get", "k": 0}]
+        ops += rng.choice([[{"op": "settle"}], [{"op": "step"}] * rng.randrange(0, 8)])
+        ops += [{"op": "crash", "tears": []}, {"op": "get", "k": 0}, {"op": "settle"}]
+        cases.append(mk_case(rng, keys, vals, ops, 16384, rng.choice([1, 2, 25]), "overwrite-shorter-longer"))
+    # removal inside the window put -> write task done -> (remove) -> notification handled, then restart;
+    # and the failed-write clean-up path (file name too long)
+    for i in range(40 if quick else 600):
+        keys = gen_keys(rng, 2, False) + [bytes([rng.getrandbits(8)]) * 128]
+        vals = [bytes([0x91, 1]) + b"abc", bytes([0x91, 5]) + b"defgh"]
+        k = rng.choice([0, 0, 0, 2])
+        ops = [{"op": "put", "k": 1, "v": 1, "t": 1}] if rng.random() < 0.5 else []
+        ops.append({"op": "put", "k": k, "v": 0, "t": 0})
+        ops += [{"op": "step"}] * rng.randrange(0, 6)            # 0: nothing ran ... 3+: write done, notification sent
+        ops += rng.choice([[], [{"op": "deliver", "j": 0}]])
+        ops.append({"op": "remove", "k": k})
+        ops += rng.choice([[], [{"op": "deliver", "j": 0}], [{"op": "step"}, {"op": "deliver", "j": 0}]])
+        ops += rng.choice([[{"op": "settle"}], [{"op": "step"}] * rng.randrange(0, 6)])
+        ops += [{"op": "crash", "tears": []}, {"op": "get", "k": k}, {"op": "settle"}, {"op": "crash", "tears": []}]
+        cases.append(mk_case(rng, keys, vals, ops, rng.choice([1, 16384]), 25, "remove-in-notification-window"))
     # every byte prefix of one pending write (overwrite of a completed record), a second file complete
     for rep in range(1 if quick else 12):
         keys = gen_keys(rng, 3, False)
